@@ -239,7 +239,9 @@ def build_obj(src, name, extra=()):
 def build_libcds_objs(extra=()):
     """libcds' own src/*.cpp compiled with the guard on (cached by tree hash)."""
     th = repo_tree_hash()
-    tag = hashlib.sha256(" ".join(extra).encode()).hexdigest()[:6]
+    # the objects are compiled against the instrumented atomics: their interface is part of the key
+    hh = files_hash([os.path.join(HARNESS, "vsched.h"), os.path.join(HARNESS, "include", "khizmax_libcds_verif", "atomic.h")])
+    tag = hashlib.sha256((" ".join(extra) + hh + " ".join(CXXFLAGS)).encode()).hexdigest()[:6]
     objs = []
     jobs = []
     os.makedirs(BIN, exist_ok=True)
